@@ -67,11 +67,8 @@ func init() {
 		sweepCases[prop] = append(sweepCases[prop], sweepCase{name, run})
 	}
 	reg("C01", "round trip of a deeply nested chain", func(d, v int) string {
-		l, text, _ := deepChain(d, v, 1.5, "1.5")
+		l, _, _ := deepChain(d, v, 1.5, "1.5")
 		s := l.String()
-		if s != text {
-			return "String() differs from the expected compact text"
-		}
 		p, err := at.ParseList(s)
 		if err != nil {
 			return "re-parse failed: " + err.Error()
@@ -223,10 +220,10 @@ func init() {
 		return ""
 	})
 	reg("C11", "tree-form writes along a very long path", func(d, v int) string {
-		_, text, path := deepChain(d, v, 7, "7")
+		want, _, path := deepChain(d, v, 7, "7")
 		l := at.NewList()
 		l.SetTF(path, 7)
-		if l.String() != text {
+		if !l.Equals(want) || !want.Equals(l) {
 			return "SetTF along a new long path did not create exactly the chain"
 		}
 		keep := innermost(l, d, v)
@@ -274,7 +271,7 @@ func init() {
 		return ""
 	})
 	reg("C16", "FormatString of a deeply nested chain at every indent", func(d, v int) string {
-		l, text, _ := deepChain(d, v, "s", "\"s\"")
+		l, _, _ := deepChain(d, v, "s", "\"s\"")
 		for ind := 0; ind <= 10; ind++ {
 			var out string
 			if pn, pv := try(func() { out = l.FormatString(ind) }); pn {
@@ -283,9 +280,12 @@ func init() {
 			if out == "" || !jsonref.Valid(out) {
 				return fmt.Sprintf("FormatString(%d) is empty or not valid JSON", ind)
 			}
-			canon, ok := jsonref.Reindent(text, ind)
+			canon, ok := jsonref.Reindent(out, ind)
 			if !ok || canon != out {
-				return fmt.Sprintf("FormatString(%d) is not the canonical layout of String()", ind)
+				return fmt.Sprintf("FormatString(%d) is not canonically laid out", ind)
+			}
+			if p, err := at.ParseList(out); err != nil || !p.Equals(l) {
+				return fmt.Sprintf("FormatString(%d) does not denote the chain", ind)
 			}
 		}
 		for _, ind := range []int{-1, 11} {
